@@ -24,7 +24,8 @@ Arguments N.mul : simpl never.
 (** the static terminal table is that of a BDD manager: values 0/1, both present *)
 Definition bterms_ok (terms : list (N * N)) : Prop :=
   (forall x v, assoc_N terms x = Some v -> v = 0%N \/ v = 1%N) /\
-  (exists t, rassoc_N terms 0%N = Some t) /\ (exists t, rassoc_N terms 1%N = Some t).
+  (exists t, rassoc_N terms 0%N = Some t) /\ (exists t, rassoc_N terms 1%N = Some t) /\
+  (forall t0 t1, rassoc_N terms 0%N = Some t0 -> rassoc_N terms 1%N = Some t1 -> t0 <> t1).
 
 Lemma In_assoc_some : forall (l : list (N * N)) t v, In (t, v) l -> exists v', assoc_N l t = Some v'.
 Proof.
@@ -148,7 +149,7 @@ Lemma view_VT_RT : forall r b, view tsnap r = Some (VT b) -> exists x, r = RT x.
 Proof. intros [x|id] b H; [eauto | discriminate]. Qed.
 
 Lemma term_of_total : forall b, exists t, term_of tsnap b = Some t.
-Proof. intros [|]; unfold term_of; simpl; [apply (proj2 (proj2 BT)) | apply (proj1 (proj2 BT))]. Qed.
+Proof. intros [|]; unfold term_of; simpl; [apply (proj1 (proj2 (proj2 BT))) | apply (proj1 (proj2 BT))]. Qed.
 
 Lemma term_of_stored : forall tb b t, term_of tsnap b = Some t -> stored tb (RT t).
 Proof.
